@@ -145,7 +145,7 @@ HINT0 = r'''
 HINT = r'''proof {
             assert(index as int == g_index && peers as int == g_peers);
             lemma_chunk(rng_n(g_lo, g_hi), g_peers, g_index);
-            assert(@{n} as int == rng_n(g_lo, g_hi));   // #obl:generate_iterator.length_is_the_clamped_difference
+            assert(§n§ as int == rng_n(g_lo, g_hi));   // #obl:generate_iterator.length_is_the_clamped_difference
         }
         '''
 HINT2 = r'''proof {
